@@ -57,7 +57,8 @@ func resolveComputedFields(env *Environment, errorSink *validation.ErrorSink) *E
 				}
 			}
 
-			rewritten := self.DefaultRewrite(node, &ComputedFieldScope{context.Record, context.RewrittenFields, append(context.CurrentFields, t), context.Variables})
+			// The variables declared by a switch case that references this field are not in scope in its body
+			rewritten := self.DefaultRewrite(node, &ComputedFieldScope{context.Record, context.RewrittenFields, append(context.CurrentFields, t), nil})
 			context.RewrittenFields[t] = rewritten.(*ComputedField)
 			return rewritten
 		case *TypeConversionExpression:
